@@ -50,7 +50,33 @@ class ThreadEngine(Engine):
     ] + [
         {'progs': [[['singleton', 'sa'], ['read']], [['call', 0, 's2'], ['singleton', 'sa']]],
          'schedule': [0] * k + [1] * 120 + [0] * 200} for k in range(0, 30, 3)
-    ]
+    ] + self.sweeps(stride=3)
+
+  # two-dimensional sweeps: thread 0 runs a steps, thread 1 runs b steps, thread 0 runs to its end, thread 1 to its
+  # end -- three context switches placed at EVERY pair of preemption points (a, b) of the two programs (the numbers of
+  # steps are measured on the current source).  (pre, program of thread 0, program of thread 1)
+  SWEEPS = [
+      ([['call', 0, 's1', 'p']], [['call', 0, 's1', '']], [['read']]),      # an existing section gains a parameter
+      ([], [['call', 0, 's1', '']], [['read']]),                              # a section is created
+      ([['call', 1, '', 'q']], [['call', 1, '', 'p'], ['call', 0, 's2', '']], [['read']]),
+      ([], [['singleton', 'sa']], [['singleton', 'sa']]),                     # first use by both
+      ([['singleton', 'sb']], [['singleton', 'sa']], [['singleton', 'sa'], ['read']]),
+  ]
+
+  def steps_alone(self, pre, prog):
+    gin, fns = self.setup()
+    _, _, _, _, _, trace = self.run_programs(gin, fns, [prog], [], pre)
+    return len(trace)
+
+  def sweeps(self, stride=1):
+    out = []
+    for pre, p0, p1 in self.SWEEPS:
+      a_max = self.steps_alone(pre, p0)
+      b_max = self.steps_alone(pre, p1)
+      for a in range(1, a_max):
+        for b in range(1 + a % stride, b_max, stride):
+          out.append({'pre': pre, 'progs': [p0, p1], 'schedule': [0] * a + [1] * b + [0] * (a_max + 5) + [1] * (b_max + 5)})
+    return out
 
   def gen_prog(self, rng):
     acts = []
@@ -71,12 +97,15 @@ class ThreadEngine(Engine):
     return {'progs': progs, 'schedule': schedule}
 
   def exhaustive(self):
+    yield from self.sweeps()
     progs = [[['singleton', 'sa']], [['singleton', 'sa'], ['read']]]
     for s in itertools.product([0, 1], repeat=8):
       yield {'progs': progs, 'schedule': list(s)}
     progs = [[['call', 0, 's1']], [['read'], ['call', 1, 's1']]]
     for s in itertools.product([0, 1], repeat=8):
       yield {'progs': progs, 'schedule': list(s)}
+
+  SEQ = {}     # the sequential run of the last (pre, programs) seen
 
   # parameters recorded by the two probes (fixed configuration): probe i has default p=i, bound q
   VALS = {0: [['p', 0], ['q', 10]], 1: [['p', 1], ['q', 11]]}
@@ -99,19 +128,22 @@ class ThreadEngine(Engine):
       if a[0] == 'read':
         return 'ARead'
       return '(ASingleton %s)' % C.cstr(a[1])
-    progs = C.clist([C.clist([act(a) for a in p]) if p else '(@nil action)' for p in case['progs']])
+    plist = [list(p) for p in case['progs']]
+    if case.get('pre'):
+      plist[0] = list(case['pre']) + plist[0]
+    progs = C.clist([C.clist([act(a) for a in p]) if p else '(@nil action)' for p in plist])
     qs = C.clist(['((%s, %s), %s)' % (C.cstr(s), C.cstr(q), C.cstr(p)) for s, q, p in self.queries(case)])
     # the model is run on the EMPTY schedule: the observations compared are schedule-independent (C18 theorems)
     return '((true, true), %s, (@nil nat), %s, %s)' % (progs, qs, C.cstrs(NAMES))
 
   def shrink(self, case):
     for i in range(len(case['schedule'])):
-      yield {'progs': case['progs'], 'schedule': case['schedule'][:i] + case['schedule'][i + 1:]}
+      yield dict(case, schedule=case['schedule'][:i] + case['schedule'][i + 1:])
     for t in range(len(case['progs'])):
       for i in range(len(case['progs'][t])):
         p = [list(x) for x in case['progs']]
         del p[t][i]
-        yield {'progs': p, 'schedule': case['schedule']}
+        yield dict(case, progs=p)
 
   def setup(self):
     gin = C.fresh_gin()
@@ -125,7 +157,7 @@ class ThreadEngine(Engine):
       gin.bind_parameter('m.f%d.q' % i, 10 + i)
     return gin, fns
 
-  def run_programs(self, gin, fns, progs, schedule):
+  def run_programs(self, gin, fns, progs, schedule, pre=None):
     built = []
     reads = []
     got = {}
@@ -149,6 +181,8 @@ class ThreadEngine(Engine):
             got.setdefault(a[1], []).append(id(o))
       return body
     bodies = [make(p, t) for t, p in enumerate(progs)]
+    if pre:
+      make(pre, -1)()            # sequential history before the threads start
     if schedule is None:
       errors = []
       for b in bodies:
@@ -160,9 +194,7 @@ class ThreadEngine(Engine):
       trace = []
     else:
       s = sched.Scheduler(gin.config, bodies, schedule)
-      gin.config._OPERATIVE_CONFIG_LOCK = sched.CoopLock(s)  # pylint: disable=protected-access
-      if hasattr(gin.config, '_SINGLETONS_LOCK'):
-        gin.config._SINGLETONS_LOCK = sched.CoopLock(s)  # pylint: disable=protected-access
+      sched.install(gin.config, s)
       errors = s.run()
       trace = s.trace
     oper = {(k[0], k[1], p): v for k, d in gin.config._OPERATIVE_CONFIG.items() for p, v in d.items()}  # pylint: disable=protected-access
@@ -172,7 +204,7 @@ class ThreadEngine(Engine):
 
   def impl(self, case):
     gin, fns = self.setup()
-    errors, reads, built, got, oper, trace = self.run_programs(gin, fns, case['progs'], case['schedule'])
+    errors, reads, built, got, oper, trace = self.run_programs(gin, fns, case['progs'], case['schedule'], case.get('pre'))
     fails = []
     failed = any(e is not None for e in errors)
     if failed:
@@ -194,8 +226,12 @@ class ThreadEngine(Engine):
         fails.append(('read-does-not-parse', '%s: %r' % (type(e).__name__, text)))
         break
     # final record == a sequential run of the same programs
-    gin2, fns2 = self.setup()
-    _, _, _, _, oper2, _ = self.run_programs(gin2, fns2, case['progs'], None)
+    key = repr((case.get('pre'), case['progs']))
+    if key not in self.SEQ:
+      gin2, fns2 = self.setup()
+      self.SEQ.clear()
+      self.SEQ[key] = self.run_programs(gin2, fns2, case['progs'], None, case.get('pre'))[4]
+    oper2 = self.SEQ[key]
     if oper != oper2 and not failed:
       fails.append(('final-operative-differs-from-sequential', 'threads %r; sequential %r' % (sorted(oper.items(), key=repr), sorted(oper2.items(), key=repr))))
     # singletons: constructed once per name, one object for all users
